@@ -6,7 +6,7 @@ package main
 // same operation on the (small) multipliers, guarded by an interval analysis that rules out overflow.
 // This removes every 64-bit multiplication by 10^9 from the solver queries.
 
-const tickT = 500000000
+const tickT = 125000000 // base unit U = 1/8 s; the clock advances in multiples of 4U = 0.5 s
 
 func (c *Ctx) isMulT(t *Term) (*Term, bool) {
 	if t.K == KMul && t.W == 64 && t.Args[1].IsConst() && t.Args[1].Val == tickT {
@@ -108,6 +108,21 @@ func (c *Ctx) mulT(x *Term) *Term {
 		return c.BV(x.Val*tickT, 64)
 	}
 	return c.mk(&Term{K: KMul, W: 64, Args: []*Term{x, c.BV(tickT, 64)}})
+}
+
+// tickShift: (x*c*U) >> k  ==  x*(c>>k)*U  when c is a multiple of 2^k (exact, no rounding).
+func (c *Ctx) tickShift(a, b *Term) *Term {
+	if a.W != 64 || !b.IsConst() || b.Val == 0 || b.Val > 3 {
+		return nil
+	}
+	x, ok := c.isMulT(a)
+	if !ok || a.IsConst() || !smallOK(x) {
+		return nil
+	}
+	if x.K == KMul && x.Args[1].IsConst() && x.Args[1].Val%(1<<b.Val) == 0 {
+		return c.mulT(c.bin(KMul, x.Args[0], c.BV(x.Args[1].Val>>b.Val, 64)))
+	}
+	return nil
 }
 
 // tickMul: x * C with C a multiple of T.
